@@ -21,7 +21,7 @@ ASSUMPTIONS = ["CPython float/Fraction arithmetic", "nvmon.ref exact reference m
 FLOORS = {'quick': {'single': 1500, 'list': 300, 'ders0': 300, 'grid_point': 1000, 'grid_shape': 150, 'meval': 2000,
                     'corner': 300},
           'thorough': {'single': 15000, 'grid_point': 10000, 'meval': 20000}}
-MANDATORY_TAGS = ['partial:zero-start-or-stop', 'partial:start==stop', 'square', 'large', 'ss:delta>2/3', 'container-grid', 'pdim3', 'rational', 'u:knot_full', 'u:knot', 'u:start', 'u:end', 'kv:unclamped', 'kv:range',
+MANDATORY_TAGS = ['ss:delta-half-integer', 'partial:zero-start-or-stop', 'partial:start==stop', 'square', 'large', 'ss:delta>2/3', 'container-grid', 'pdim3', 'rational', 'u:knot_full', 'u:knot', 'u:start', 'u:end', 'kv:unclamped', 'kv:range',
                   'ss:distinct', 'ss:one-direction', 'route:list', 'span:binary', 'dim4']
 TECHNIQUE = ("runtime monitoring: exact-arithmetic post-condition on every evaluators.*.evaluate() call (M-eval hook) and on "
              "each public evaluation entry point, under a class-enumerating seeded workload")
@@ -167,6 +167,15 @@ def check(case, ctx):
                 ctx.tag('ss:arbitrary-delta')
                 if any(x > 2.0 / 3.0 for x in dl):
                     ctx.tag('ss:delta>2/3')
+            elif rng.random() < 0.3:
+                # 1 / delta exactly half-way between two integers (0.4 -> 2.5, 2/9 -> 4.5, 0.08 -> 12.5): every route to the sample size
+                # rounds it the same way (half up, as documented by floor(1 / delta + 0.5)) - the half-to-even rounding of round() differs
+                import math
+                kmax = {1: 22, 2: 8, 3: 4}[pdim]
+                dl = [rng.choice([2.0 / (2 * k_ + 1) for k_ in range(2, kmax + 1, 2)] + [x]) for x in dl]
+                dl[rng.randrange(pdim)] = 2.0 / (2 * rng.choice(range(2, kmax + 1, 2)) + 1)
+                want = [max(2, int(math.floor(1.0 / x + 0.5))) for x in dl]
+                ctx.tag('ss:delta-half-integer')
             if pdim == 1:
                 o.delta = dl[0]
             else:
